@@ -86,6 +86,7 @@ class Report:
         self.rule = ""
         self.findings = load_findings(prop)
         self.notes = []
+        self.no_evidence = False
 
     # obligations -----------------------------------------------------
     def oblige(self, name, ok, detail=""):
@@ -199,8 +200,9 @@ class Report:
             "wall_s": round(time.time() - self.t0, 2),
             "violations": len(concrete) + (1 if broken and not concrete else 0),
         }
-        with open(os.path.join(EVID, "%s.json" % self.prop), "w") as f:
-            json.dump(ev, f, indent=1, default=str)
+        if not self.no_evidence:
+            with open(os.path.join(EVID, "%s.json" % self.prop), "w") as f:
+                json.dump(ev, f, indent=1, default=str)
         for ln in lines:
             print(ln)
         print("%s %s tier=%s seed=%d obligations=%d/%d evaluations=%d violations=%d known=%d wall=%.1fs" % (
@@ -446,3 +448,86 @@ def zlit(n):
 
 def coq_str_of_cps(cps):
     return "[" + ";".join(str(c) for c in cps) + "]"
+
+
+PREAMBLE = """From Coq Require Import String.
+From Coq Require Import ZArith List Bool.
+Import ListNotations.
+Open Scope Z_scope.
+Set Printing Depth 10000000.
+Set Printing Width 250.
+"""
+
+
+def coq_eval_many(name, imports, evals, per_file=40, jobs=16, timeout=900):
+    """Evaluate many `Eval vm_compute in <term : list (list Z)>.` commands, sharded
+    over parallel coqc processes.  `evals` is a list of Gallina terms; returns
+    (ok, list of parsed blocks in the same order, raw error text)."""
+    import concurrent.futures
+    os.makedirs(WORK, exist_ok=True)
+    d = os.path.join(WORK, "%s_%d" % (name, os.getpid()))
+    shutil.rmtree(d, ignore_errors=True)
+    os.makedirs(d)
+    shards = [evals[i:i + per_file] for i in range(0, len(evals), per_file)]
+    paths = []
+    for k, sh in enumerate(shards):
+        p = os.path.join(d, "%s_%d.v" % (name, k))
+        with open(p, "w") as f:
+            f.write(PREAMBLE + imports + "\n")
+            for e in sh:
+                f.write("Eval vm_compute in (%s).\n" % e)
+        paths.append(p)
+    flags = coq_flags()
+
+    def one(p):
+        return run(["coqc"] + flags + ["-Q", d, "Work", p], timeout, cwd=COQ)
+
+    results = []
+    err = ""
+    with concurrent.futures.ThreadPoolExecutor(max_workers=jobs) as ex:
+        outs = list(ex.map(one, paths))
+    ok = True
+    for (rc, out), sh in zip(outs, shards):
+        if rc != 0:
+            ok = False
+            err += out[-3000:]
+            results += [None] * len(sh)
+            continue
+        blocks = parse_z_lists(out)
+        if len(blocks) != len(sh):
+            ok = False
+            err += "expected %d result blocks, got %d\n%s" % (len(sh), len(blocks), out[-2000:])
+            results += [None] * len(sh)
+        else:
+            results += blocks
+    shutil.rmtree(d, ignore_errors=True)
+    return ok, results, err
+
+
+def zlist(xs):
+    return "[" + "; ".join(zlit(int(x)) for x in xs) + "]"
+
+
+def standard_coq(rep, targets, props_file, timeout=1500, regen=None):
+    """The proof side shared by every check: (optional) regeneration of the
+    translated files, full .vo build of `targets`, Props/<file> recompiled with
+    Print Assumptions parsed per theorem, forbidden-vernacular scan.
+    Returns True when the model can be used for a correspondence run."""
+    if regen is not None:
+        if not regen(rep):
+            return False
+    ok, out = coq_make(targets, timeout=timeout)
+    rep.checker_cmds.append("cd coq && make %s (full .vo build)" % " ".join(targets))
+    rep.oblige("build " + " ".join(targets), ok, out[-6000:])
+    if ok:
+        coq_props(rep, props_file)
+    bad = forbidden_scan()
+    rep.oblige("no Admitted/admit/Axiom/Parameter/Conjecture/unset checks in coq/", not bad, "; ".join(bad))
+    return ok
+
+
+def coqchk(rep, module):
+    rc, out = run(["coqchk", "-silent", "-o"] + coq_flags()[:3] + [module], 2400, cwd=COQ)
+    rep.checker_cmds.append("coqchk -silent -o -Q . Ckl " + module)
+    rep.oblige("coqchk re-checks %s and its dependencies" % module, rc == 0, out[-3000:])
+    rep.cov["coqchk_output_tail"] = out[-1500:]
